@@ -32,7 +32,7 @@ package stream
 //@   ensures#nonnil err == nil ==> r != nil
 //@   ensures#init err == nil ==> r.src == src && r.a.$key == bytes(key) && len(r.unread) == 0 && r.err == nil && ctr(r.nonce) == 0 && r.nonce[11] == 0   [C01 C02 C05 C12 C13]
 //@   ensures#nil err != nil ==> r == nil
-//@   fresh r when err == nil
+//@   fresh r when err == nil   [C20]
 //@   modifies nothing
 
 //@ func NewWriter(key, dst) (w, err)
@@ -40,7 +40,7 @@ package stream
 //@   ensures#nonnil err == nil ==> w != nil
 //@   ensures#init err == nil ==> w.dst == dst && w.a.$key == bytes(key) && len(w.unwritten) == 0 && w.err == nil && ctr(w.nonce) == 0 && w.nonce[11] == 0 && rg(w.unwritten) == rg(w.buf) && off(w.unwritten) == 0   [C01 C05 C06 C12 C13]
 //@   ensures#nil err != nil ==> w == nil
-//@   fresh w when err == nil
+//@   fresh w when err == nil   [C20]
 //@   modifies nothing
 
 //@ const CS := 65536
